@@ -36,8 +36,143 @@ def seed_identity(seed: int) -> None:
     tempfile._name_sequence = names  # pylint: disable=protected-access
 
 
+def _read_exact(fd: int, size: int) -> bytes:
+    buf = b''
+    while len(buf) < size:
+        chunk = os.read(fd, size - len(buf))
+        if not chunk:
+            return b''
+        buf += chunk
+    return buf
+
+
+def _run_and_report(fn, args, seed, wfd: int) -> None:
+    """Body of the process that IS the run. Never returns."""
+    code = 3
+    try:
+        if seed is not None:
+            seed_identity(seed)
+        try:
+            payload = ('ok', fn(*args))
+        except BaseException as err:  # pylint: disable=broad-except
+            payload = ('err', f'{type(err).__name__}: {err}\n{traceback.format_exc()}')
+        data = pickle.dumps(payload)
+        data = struct.pack('<I', len(data)) + data
+        while data:
+            n = os.write(wfd, data)
+            data = data[n:]
+        code = 0
+    finally:
+        os._exit(code)
+
+
+# A sweep worker runs many seeds one after the other, and what it did before shapes its heap: a run forked from it
+# would see other object addresses (hence other iteration orders of identity-hashed sets, other id() reuse) depending
+# on which seeds the pool happened to hand that worker earlier. So a worker forks ONE zygote before its first run;
+# the zygote does nothing but fork: every run of that worker starts from the same frozen image. The zygote never
+# touches a request (it reads a 4 byte header, forks, and the run reads its own arguments from the pipe).
+USE_ZYGOTE = False  # switched on in pool workers (vlib.base._worker_init); the main process forks directly
+_ZYGOTE: typing.Optional[tuple] = None
+
+
+def _zygote_start() -> tuple:
+    cmd_r, cmd_w = os.pipe()
+    res_r, res_w = os.pipe()
+    ctl_r, ctl_w = os.pipe()
+    sys.stdout.flush()
+    sys.stderr.flush()
+    pid = os.fork()
+    if pid == 0:
+        try:
+            for fd in (cmd_w, res_r, ctl_r):
+                os.close(fd)
+            while True:
+                head = _read_exact(cmd_r, 4)
+                if not head:
+                    break  # the worker is gone
+                child = os.fork()
+                if child == 0:
+                    os.close(ctl_w)
+                    (size,) = struct.unpack('<I', head)
+                    fn, args, seed = pickle.loads(_read_exact(cmd_r, size))
+                    os.close(cmd_r)
+                    _run_and_report(fn, args, seed, res_w)
+                os.write(ctl_w, struct.pack('<i', child))
+                os.waitpid(child, 0)
+                os.write(ctl_w, struct.pack('<i', 0))  # that run is over (with or without a result)
+        finally:
+            os._exit(0)
+    for fd in (cmd_r, res_w, ctl_w):
+        os.close(fd)
+    return pid, cmd_w, res_r, ctl_r
+
+
+def _fork_run_zygote(fn, args, real_timeout: float, seed):
+    global _ZYGOTE  # pylint: disable=global-statement
+    if _ZYGOTE is None or _ZYGOTE[4] != os.getpid():
+        _ZYGOTE = (*_zygote_start(), os.getpid())
+    _, cmd_w, res_r, ctl_r, _ = _ZYGOTE
+    data = pickle.dumps((fn, args, seed))
+    data = struct.pack('<I', len(data)) + data
+    while data:
+        n = os.write(cmd_w, data)
+        data = data[n:]
+    head = _read_exact(ctl_r, 4)
+    if not head:
+        _ZYGOTE = None
+        raise RunFailed('the zygote of this worker died')
+    (pid,) = struct.unpack('<i', head)
+    deadline = time.monotonic() + real_timeout
+    buf = b''
+    need = None
+    over = False
+    killed = False
+    while True:
+        if need is not None and len(buf) >= need:
+            break
+        if over:
+            # the run is gone: whatever it wrote is in the pipe already
+            ready, _, _ = select.select([res_r], [], [], 0)
+            if not ready:
+                break
+        remaining = deadline - time.monotonic()
+        if remaining <= 0 and not killed:
+            try:
+                os.kill(pid, signal.SIGKILL)
+            except ProcessLookupError:
+                pass
+            killed = True
+        ready, _, _ = select.select([res_r, ctl_r] if not over else [res_r], [], [], 5.0 if not killed else 30.0)
+        if ctl_r in ready:
+            if not _read_exact(ctl_r, 4):
+                _ZYGOTE = None
+                raise RunFailed('the zygote of this worker died')
+            over = True
+        if res_r in ready:
+            chunk = os.read(res_r, 1 << 16)
+            buf += chunk
+            if need is None and len(buf) >= 4:
+                need = 4 + struct.unpack('<I', buf[:4])[0]
+        if killed and not ready and not over:
+            _ZYGOTE = None
+            raise RunFailed(f'run exceeded {real_timeout}s of real time and could not be reaped')
+    if not over:  # the result is complete; collect the end-of-run marker so that the next request starts clean
+        if not _read_exact(ctl_r, 4):
+            _ZYGOTE = None
+    if killed:
+        raise RunFailed(f'run exceeded {real_timeout}s of real time (lost baton?)')
+    if need is None or len(buf) < need:
+        raise RunFailed('run process died without a result')
+    status, value = pickle.loads(buf[4:need])
+    if status != 'ok':
+        raise RunFailed(value)
+    return value
+
+
 def fork_run(fn: typing.Callable[..., typing.Any], *args, real_timeout: float = 120.0,
              seed: typing.Optional[int] = None):
+    if USE_ZYGOTE and os.environ.get('VERIF_ZYGOTE', '1') != '0':
+        return _fork_run_zygote(fn, args, real_timeout, seed)
     rfd, wfd = os.pipe()
     sys.stdout.flush()
     sys.stderr.flush()
